@@ -513,3 +513,90 @@ func diffClass(got, want, calls []string) (nF30 int, real string) {
 	}
 	return
 }
+
+// suiteMergeFault (C15: "whether it succeeds or fails"): an I/O error injected at
+// the k-th file mutation of Merge; afterwards every read must be unchanged, in the
+// running process and after reopen, and later writes must be durable.
+func suiteMergeFault(seed uint64, n int, work string) {
+	os.MkdirAll(work, 0755)
+	st := NewSt(work)
+	st.comment = true
+	nutsdb.VerifObserver = st.observer
+	root := NewPRNG(seed)
+	p := profileByName("mixed")
+	p.WKV, p.WList, p.WSet, p.WZSet = 4, 0, 2, 2
+	p.FixedScores = true
+	p.Abort, p.Oversize, p.ReadOnly, p.DoneCalls, p.Reopen, p.Txs = 5, 0, 5, 0, 0, 12
+	p.NoSPop = true
+	fired := 0
+	for i := 0; i < n; i++ {
+		r := root.Fork()
+		seg := []int{150, 200, 300}[r.Intn(3)]
+		open := optLine(r.Intn(2), r.Intn(2), r.Intn(2), r.Intn(2), seg)
+		emit("#H %d %s mergefault", i, open)
+		out.Flush()
+		st.run("reset")
+		st.run(open)
+		for _, c := range genHistory(r, p, seg) {
+			if c == "reopen" || st.dead {
+				continue
+			}
+			st.run(c)
+		}
+		obs := obsCalls(p)
+		doObs := func() []string {
+			var rs []string
+			for _, c := range obs {
+				rs = append(rs, st.run(c))
+			}
+			return rs
+		}
+		before := doObs()
+		j := r.Range(1, 40)
+		part := []int{-1, 0, 10, 42, 47}[r.Intn(5)]
+		res := st.run(fmt.Sprintf("mergefault %d %d", j, part))
+		kind := st.faultOp
+		if kind != "" {
+			fired++
+		}
+		if st.dead {
+			emit("#SPEC panic during Merge with an injected %s error", kind)
+			continue
+		}
+		after := doObs()
+		if _, real := diffClass(after, before, obs); real != "" {
+			emit("#SPEC Merge (result %s, injected %s error at event %d, partial %d) changed reads in the running process: %s", res, kind, j, part, real)
+		}
+		// writes after the failed Merge must be durable
+		st.run("begin w ?")
+		st.run(fmt.Sprintf("put %s %s %s 0 1700000000", hx([]byte("zz")), hx([]byte("after")), hx([]byte("merge"))))
+		if st.run("commit") != "ok" {
+			emit("#SPEC commit failed after a Merge that hit an I/O error (%s)", kind)
+		}
+		st.run("rollback")
+		if st.run("close") != "ok" {
+			emit("#SPEC close failed after a Merge that hit an I/O error (%s)", kind)
+		}
+		st.db = nil
+		if st.run(open) != "ok" {
+			emit("#SPEC open-failed after a Merge that hit an I/O error (%s at event %d, partial %d)", kind, j, part)
+			continue
+		}
+		again := doObs()
+		if nk, real := diffClass(again, before, obs); real != "" {
+			emit("#SPEC Merge (result %s, injected %s error at event %d, partial %d) changed reads after reopen: %s", res, kind, j, part, real)
+		} else if nk > 0 {
+			emit("#KNOWN F30 after a Merge interrupted by an I/O error and reopen: %d empty structures answer 'not found'", nk)
+		}
+		st.run("begin r ?")
+		if g := st.run("get " + hx([]byte("zz")) + " " + hx([]byte("after"))); g != "entry "+hx([]byte("after"))+" "+hx([]byte("merge")) {
+			emit("#SPEC a write committed after the failed Merge is lost after reopen: %s", g)
+		}
+		st.run("rollback")
+		st.closeQuiet()
+	}
+	emit("#STAT mergefault histories=%d fired=%d", n, fired)
+	st.comment = false
+	st.reset()
+	os.RemoveAll(st.dir)
+}
